@@ -17,13 +17,33 @@ NCPU = int(os.environ.get("VX_NCPU", str(os.cpu_count() or 4)))
 _scratch_root = None
 
 
+def _prune_stale(base):
+    """Remove scratch directories of check processes that no longer exist (killed runs cannot clean up after themselves)."""
+    import re
+    try:
+        names = os.listdir(base)
+    except OSError:
+        return
+    for nm in names:
+        m = re.match(r"^vx-(\d+)-", nm)
+        if not m:
+            continue
+        try:
+            os.kill(int(m.group(1)), 0)
+        except ProcessLookupError:
+            shutil.rmtree(os.path.join(base, nm), ignore_errors=True)
+        except OSError:
+            pass
+
+
 def scratch_root():
     """One scratch directory per check process, removed at exit."""
     global _scratch_root
     if _scratch_root is None:
         base = "/dev/shm" if os.path.isdir("/dev/shm") and os.access("/dev/shm", os.W_OK) else None
-        _scratch_root = tempfile.mkdtemp(prefix="vx-", dir=base)
         pid = os.getpid()
+        _prune_stale(base or tempfile.gettempdir())
+        _scratch_root = tempfile.mkdtemp(prefix="vx-%d-" % pid, dir=base)
 
         def _rm(root=_scratch_root, pid=pid):
             if os.getpid() == pid:
@@ -72,6 +92,7 @@ def pmap(fn, items, procs=None, chunksize=None):
     procs = min(procs or NCPU, max(1, len(items)))
     if procs <= 1 or len(items) < 4:
         return [fn(x) for x in items]
+    scratch_root()          # (before forking: the workers inherit it instead of creating - and leaking - their own)
     ctx = mp.get_context("fork")
     if chunksize is None:
         chunksize = max(1, len(items) // (procs * 8))
